@@ -28,6 +28,29 @@
 //!      (`for &(u, v) in pairs { u.partial_cmp(&v) }`): nothing but `partial_cmp` ever looks at those temporaries
 //!   t  the whole script runs on a freshly spawned thread (that never called `f80_init`)
 //!   i  `f80_init()` is called (again) immediately before the script, and once more between arithmetic and relations
+//!   f b p u  HISTORIES THAT END ABNORMALLY, run on the same thread BEFORE the script (src/preamble.rs): operands and
+//!      results of the case (x, y, x+y, x*y, x/y, x*y+x) and six fixed values are formatted with Display / Debug / LowerExp
+//!      (if implemented) under 22 specifications ({}, {:?}, {:.3}, {:.18}, {:10.2}, {:.0}, {:+.6?}, {:08.3}, {:.*}, {:.19},
+//!      {:.40?}, slices, Option under {:#?}, a derived Debug struct, several values in one call, a user Display that fails)
+//!      into  f: a String;  b: a bounded fmt::Write sink and a bounded io::Write sink that fail after
+//!      0, 1, 2, len/2, len-1 bytes;  p: a sink that panics, user Display impls that panic before / after the f80,
+//!      to_string of a Display that returns Err, rlib_show::Show (all panics caught with catch_unwind);
+//!      u: user closures comparing / converting / adding f80 values that panic or stop early (sort_by, sort_unstable_by,
+//!      max_by, min_by, binary_search_by with a panicking comparator or `partial_cmp(..).unwrap()` on a NaN, folds with
+//!      `+=`, `map` with conversions, f80 operations in a Drop that runs during unwinding, try_fold / find / any /
+//!      position / take_while)
+//!   h  the script itself runs on a thread spawned AFTER the preamble from the thread that ran it (a new thread
+//!      inherits the floating-point environment of its creator)
+//!
+//! HIDDEN STATE (src/hidden.rs).  Before the script every case runs every kind of operation of the crate once on its
+//! operands (conversions both ways, + - * / and the assigning forms, neg, the six relations, partial_cmp, min, max,
+//! abs, Display, Debug, Display with a precision, Show) and compares the x87 control word (fnstcw), TOP / stack-fault of
+//! the status word (fnstsw) and the control bits of MXCSR before and after EACH of them; so does every formatting call
+//! and every closure of the preamble, and every step of a straight-line program.  The whole case is bracketed by the
+//! same comparison including the x87 tag word (fnstenv).  A difference is a failed internal check
+//! `x87-state-changed-by-<operation>` / `x87-state-left-changed-at-the-end-of-the-case`.  After each case the process
+//! puts the main thread back into the state it had at start-up (fninit, fldcw, ldmxcsr), so that one case that leaks
+//! state is reported as one case.
 //!
 //! Independently of the route, every case evaluates a number of INTERNAL CONSISTENCY checks between entry points
 //! (assigning vs. by-value operators, `!=` vs. `==`, same-reference vs. two-object comparisons, constants vs.
@@ -39,9 +62,18 @@
 //! registers r0 = f80::from(a), r1 = f80::from(b); step k computes r(k+2) = op(r_i, r_j); ops:
 //!   add sub mul div (by value)  adda suba mula diva (assigning form)  neg abs (of r_i)  min max
 //!   rnd = f80::from(f64::from(r_i))
+//! An optional trailing token is a route of letters f b p u: the preamble runs before the program (on r0, r1 and the
+//! fixed values) and after EVERY step the step's result is formatted into the failing sinks / compared inside a
+//! panicking comparator, so that abnormal exits are interleaved with the arithmetic.
 //! One line out: `T raw(r0) raw(r1)` then per step `raw(result) bits(f64::from(result)) code` where code is the
 //! relation code (as above) of the ordered operand pair (r_i, r_j), taken through references to the two
 //! registers (the same reference twice when i = j).
+mod hidden;
+mod preamble;
+
+// (which of the two helper traits is used depends on whether f80 implements the optional trait)
+#[allow(unused_imports)]
+use preamble::{Abn, ShowFallback, ShowImpl, Wrap};
 use rlib_f80::f80;
 use rlib_num_traits::ZeroOne;
 use std::cmp::Ordering;
@@ -194,6 +226,8 @@ struct Route {
     looped: bool,
     thread: bool,
     init: bool,
+    abn: Abn,
+    inherit: bool,
 }
 
 fn parse_route(s: &str) -> Route {
@@ -206,6 +240,11 @@ fn parse_route(s: &str) -> Route {
             'l' => r.looped = true,
             't' => r.thread = true,
             'i' => r.init = true,
+            'f' => r.abn.string = true,
+            'b' => r.abn.bounded = true,
+            'p' => r.abn.panicky = true,
+            'u' => r.abn.unwind = true,
+            'h' => r.inherit = true,
             '-' => {}
             _ => {
                 eprintln!("harness: unknown route letter {:?}", c);
@@ -228,8 +267,7 @@ fn operand(bits: u64, consts: bool, second: bool) -> f80 {
     f80::from(f64::from_bits(bits))
 }
 
-fn script(abits: u64, bbits: u64, rt: Route) -> String {
-    let mut fails: Vec<&'static str> = Vec::new();
+fn script(abits: u64, bbits: u64, rt: Route, fails: &mut Vec<&'static str>) -> String {
     if rt.init {
         rlib_f80::f80_init();
     }
@@ -300,7 +338,7 @@ fn script(abits: u64, bbits: u64, rt: Route) -> String {
     pairs.push((s, q));
     let mut codes: Vec<u32> = Vec::with_capacity(pairs.len());
     for (k, (u, v)) in pairs.iter().enumerate() {
-        let c = if k == 0 && rt.selfref && abits == bbits { rel_code(u, u, &mut fails) } else { rel_code(u, v, &mut fails) };
+        let c = if k == 0 && rt.selfref && abits == bbits { rel_code(u, u, fails) } else { rel_code(u, v, fails) };
         codes.push(c);
     }
     // partial_cmp on loop temporaries
@@ -323,13 +361,13 @@ fn script(abits: u64, bbits: u64, rt: Route) -> String {
     for u in [x, y, mad, p, q, s, n] {
         let copy = black_box(u);
         let mut dummy = Vec::new();
-        if rel_code(&u, &u, &mut fails) != rel_code(&u, &copy, &mut dummy) {
+        if rel_code(&u, &u, fails) != rel_code(&u, &copy, &mut dummy) {
             fails.push("same-reference-comparison-differs-from-two-objects");
             break;
         }
     }
-    idioms(&[x, y, s, d, p, q, n, mad, ch], y, &mut fails);
-    idioms(&[mad, through64[0], p, through64[1], q, through64[2], s, through64[3]], p, &mut fails);
+    idioms(&[x, y, s, d, p, q, n, mad, ch], y, fails);
+    idioms(&[mad, through64[0], p, through64[1], q, through64[2], s, through64[3]], p, fails);
 
     let c0 = codes[0];
     for bit in 0..5 {
@@ -352,12 +390,93 @@ fn script(abits: u64, bbits: u64, rt: Route) -> String {
     for &e in &ext {
         push_raw(&mut out, e.abs());
     }
+    out.join(" ")
+}
+
+/// every kind of operation of the crate once on the operands of the case, each bracketed by `hidden::quick()`
+#[inline(never)]
+fn audit(abits: u64, bbits: u64, fails: &mut Vec<&'static str>) {
+    let x = watched!(fails, "f80-from-f64", f80::from(black_box(f64::from_bits(abits))));
+    let y = watched!(fails, "f80-from-f64", f80::from(black_box(f64::from_bits(bbits))));
+    let s = watched!(fails, "add", x + y);
+    let d = watched!(fails, "sub", x - y);
+    let p = watched!(fails, "mul", x * y);
+    let q = watched!(fails, "div", x / y);
+    let m = watched!(fails, "add", p + x);
+    let c = watched!(fails, "div", m / y);
+    let n = watched!(fails, "neg", -x);
+    let mut t = x;
+    watched!(fails, "add_assign", t += y);
+    watched!(fails, "mul_assign", t *= y);
+    watched!(fails, "sub_assign", t -= x);
+    watched!(fails, "div_assign", t /= y);
+    let vals = [x, y, s, d, p, q, m, c, n, t];
+    let mut back = [x; 10];
+    for (k, &v) in vals.iter().enumerate() {
+        let f = watched!(fails, "f64-from-f80", f64::from(v));
+        back[k] = watched!(fails, "f80-from-f64", f80::from(black_box(f)));
+        black_box(watched!(fails, "abs", v.abs()));
+    }
+    let pairs = [(x, y), (y, x), (m, p), (m, back[6]), (back[4], p), (q, s), (x, x), (n, d)];
+    for (u, v) in pairs.iter() {
+        black_box(watched!(fails, "eq", *u == *v));
+        black_box(watched!(fails, "ne", *u != *v));
+        black_box(watched!(fails, "lt", *u < *v));
+        black_box(watched!(fails, "le", *u <= *v));
+        black_box(watched!(fails, "gt", *u > *v));
+        black_box(watched!(fails, "ge", *u >= *v));
+        black_box(watched!(fails, "partial_cmp", u.partial_cmp(v)));
+        black_box(watched!(fails, "min", u.min(*v)));
+        black_box(watched!(fails, "max", u.max(*v)));
+    }
+    black_box(watched!(fails, "Display", format!("{}", x)));
+    black_box(watched!(fails, "Debug", format!("{:?}", y)));
+    black_box(watched!(fails, "Display-with-a-precision", format!("{:.3} {:12.18}", p, q)));
+    black_box(watched!(fails, "Debug-with-a-precision", format!("{:.17?}", m)));
+    black_box(watched!(fails, "Show", (&&Wrap(s)).show_text(9)));
+}
+
+/// one case on the current thread: hidden-state audit, the abnormal histories of the route, the script
+fn case(abits: u64, bbits: u64, rt: Route) -> String {
+    let mut fails: Vec<&'static str> = Vec::new();
+    let h0 = hidden::full();
+    audit(abits, bbits, &mut fails);
+    if rt.abn.any() {
+        let (x, y) = (f80::from(f64::from_bits(abits)), f80::from(f64::from_bits(bbits)));
+        let mut vals = vec![x, y, x + y, x * y, x / y, x * y + x];
+        vals.extend_from_slice(&preamble::fixed_values());
+        preamble::run(&vals, rt.abn, &mut fails);
+    }
+    let line = if rt.inherit {
+        match std::thread::spawn(move || {
+            let mut f: Vec<&'static str> = Vec::new();
+            let l = script(abits, bbits, rt, &mut f);
+            (l, f)
+        })
+        .join()
+        {
+            Ok((l, f)) => {
+                fails.extend(f);
+                l
+            }
+            Err(_) => "P".to_string(),
+        }
+    } else {
+        script(abits, bbits, rt, &mut fails)
+    };
+    if hidden::full() != h0 {
+        fails.push("x87-state-left-changed-at-the-end-of-the-case");
+    }
+    finish(line, fails)
+}
+
+fn finish(line: String, mut fails: Vec<&'static str>) -> String {
     if !fails.is_empty() && !no_x() {
         fails.sort();
         fails.dedup();
         return format!("X {}", fails.join(" "));
     }
-    out.join(" ")
+    line
 }
 
 /// C18_NO_X=1 (experiments only: is a change caught by the routes / traces alone?) suppresses the `X` lines
@@ -369,19 +488,31 @@ fn trace(t: &[&str]) -> String {
     let a = f64::from_bits(u64::from_str_radix(t[1], 16).expect("hex"));
     let b = f64::from_bits(u64::from_str_radix(t[2], 16).expect("hex"));
     let n: usize = vh::p(t[3]);
+    let abn = if t.len() > 4 + 3 * n { parse_route(t[4 + 3 * n]).abn } else { Abn::default() };
+    let mut fails: Vec<&'static str> = Vec::new();
+    let h0 = hidden::full();
     let mut regs: Vec<f80> = Vec::with_capacity(n + 2);
-    regs.push(f80::from(a));
-    regs.push(f80::from(b));
+    regs.push(watched!(fails, "f80-from-f64", f80::from(a)));
+    regs.push(watched!(fails, "f80-from-f64", f80::from(b)));
+    if abn.any() {
+        let mut vals = vec![regs[0], regs[1]];
+        vals.extend_from_slice(&preamble::fixed_values());
+        preamble::run(&vals, abn, &mut fails);
+    }
     let mut out: Vec<String> = vec!["T".to_string()];
     push_raw(&mut out, regs[0]);
     push_raw(&mut out, regs[1]);
-    let mut fails: Vec<&'static str> = Vec::new();
     for k in 0..n {
         let op = t[4 + 3 * k];
         let i: usize = vh::p(t[5 + 3 * k]);
         let j: usize = vh::p(t[6 + 3 * k]);
+        let before = hidden::quick();
         let code = rel_code(&regs[i], &regs[j], &mut fails);
+        if hidden::quick() != before {
+            fails.push("x87-state-changed-by-a-relation");
+        }
         let (u, v) = (regs[i], regs[j]);
+        let before = hidden::quick();
         let r = match op {
             "add" => u + v,
             "sub" => u - v,
@@ -417,16 +548,21 @@ fn trace(t: &[&str]) -> String {
                 std::process::exit(3)
             }
         };
+        if hidden::quick() != before {
+            fails.push("x87-state-changed-by-a-step-of-the-program");
+        }
         push_raw(&mut out, r);
-        out.push(format!("{} {}", f64::from(r).to_bits(), code));
+        let narrowed = watched!(fails, "f64-from-f80", f64::from(r));
+        out.push(format!("{} {}", narrowed.to_bits(), code));
         regs.push(r);
+        if abn.any() {
+            preamble::between_steps(r, k, abn, &mut fails);
+        }
     }
-    if !fails.is_empty() && !no_x() {
-        fails.sort();
-        fails.dedup();
-        return format!("X {}", fails.join(" "));
+    if hidden::full() != h0 {
+        fails.push("x87-state-left-changed-at-the-end-of-the-case");
     }
-    out.join(" ")
+    finish(out.join(" "), fails)
 }
 
 fn main() {
@@ -434,7 +570,19 @@ fn main() {
     if std::env::var_os("C18_NO_INIT").is_none() {
         rlib_f80::f80_init();
     }
+    let base = hidden::full();
     vh::serve(|t| {
+        let line = one_line(t);
+        // a case that left the hidden state changed has said so in its line: the next case starts clean
+        if hidden::full() != base {
+            hidden::restore(base);
+        }
+        line
+    });
+}
+
+fn one_line(t: &[&str]) -> String {
+    {
         if t[0] == "trace" {
             return trace(t);
         }
@@ -443,12 +591,12 @@ fn main() {
         let rt = if t.len() > 3 { parse_route(t[3]) } else { Route::default() };
         if rt.thread {
             let rt2 = rt;
-            match std::thread::spawn(move || script(abits, bbits, rt2)).join() {
+            match std::thread::spawn(move || case(abits, bbits, rt2)).join() {
                 Ok(s) => s,
                 Err(_) => "P".to_string(),
             }
         } else {
-            script(abits, bbits, rt)
+            case(abits, bbits, rt)
         }
-    });
+    }
 }
